@@ -3094,6 +3094,65 @@ impl Engine {
         &self.intent_log
     }
 }
+#[cfg(feature = "echo_verif")]
+impl Engine {
+    /// Verification-only: a canonical, component-wise description of every
+    /// mutable engine field. Graph stores are summarised by their
+    /// layout-independent content hash so that bucket insertion order (storage
+    /// layout, not content) does not show up as a difference.
+    #[must_use]
+    pub fn verif_fingerprint_parts(&self) -> Vec<(&'static str, String)> {
+        fn state_desc(state: &WarpState) -> String {
+            let mut out = String::new();
+            for (id, inst) in state.iter_instances() {
+                out.push_str(&format!("inst {id:?} {inst:?}\n"));
+            }
+            for (id, store) in state.iter_stores() {
+                out.push_str(&format!(
+                    "store {id:?} {}\n",
+                    hex::encode(store.canonical_state_hash())
+                ));
+            }
+            out
+        }
+        let history = {
+            let mut h = Hasher::new();
+            for (snap, receipt, patch) in &self.tick_history {
+                h.update(format!("{snap:?}|{receipt:?}|").as_bytes());
+                h.update(&patch.digest());
+            }
+            format!(
+                "{} {}",
+                self.tick_history.len(),
+                hex::encode(h.finalize().as_bytes())
+            )
+        };
+        vec![
+            ("state", state_desc(&self.state)),
+            ("initial_state", state_desc(&self.initial_state)),
+            ("tx_counter", format!("{}", self.tx_counter)),
+            ("live_txs", format!("{:?}", self.live_txs)),
+            ("scheduler", format!("{:?}", self.scheduler)),
+            ("current_root", format!("{:?}", self.current_root)),
+            ("last_snapshot", format!("{:?}", self.last_snapshot)),
+            ("tick_history", history),
+            ("intent_log", format!("{:?}", self.intent_log)),
+            ("bus", format!("{:?}", self.bus)),
+            (
+                "last_materialization",
+                format!("{:?}", self.last_materialization),
+            ),
+            (
+                "last_materialization_errors",
+                format!("{:?}", self.last_materialization_errors),
+            ),
+            ("rule_count", format!("{}", self.rules.len())),
+            ("policy_id", format!("{}", self.policy_id)),
+            ("worker_count", format!("{}", self.worker_count)),
+        ]
+    }
+}
+
 /// Computes the canonical scope hash used for deterministic scheduler ordering.
 ///
 /// This value is the first component of the scheduler’s canonical ordering key
